@@ -408,7 +408,7 @@ def build(repo=None):
         if c.startswith("C04:"):
             ob["serves"] = ["C04", "C12", "C13", "C01", "C02", "C17"]  # C17: leaked bindings make the verdict depend on the ORDER of checks, which jit/vmap change (sorted kwargs / dict keys)  # C01/C02: a non-accepting or raising check leaves the bindings as they were (the spec's post-state on those verdicts);  # C13: the bindings listed in an error are none taken from the check that failed
         elif c.startswith("C01:") or c.startswith("call:"):
-            ob["serves"] = ["C01", "C02", "C17", "C16", "C15"]  # C15: array type Any / a bare TypeVar accepts exactly the objects with shape AND dtype
+            ob["serves"] = ["C01", "C02", "C17", "C16", "C15", "C08"]  # C15: array type Any / a bare TypeVar accepts exactly the objects with shape AND dtype
         ob["function"] = FUNC
         out.append(ob)
     return {
